@@ -9,7 +9,7 @@
                           structured branches)
 Not claimed: independence from the order of parameter files (observable only through reporting order).
 """
-from engine import ai, cg, mirlib as M
+from engine import flow, ai, cg, mirlib as M
 from engine import statusmon as S
 from engine.statusmon import Mon
 
@@ -210,8 +210,110 @@ def params_reach(ctx, cr):
     ctx.ob(rule, rule + ":fold-merges-every-file", n_merge >= 1, "Validate::execute must fold the parameter files with merge (%d merge calls)" % n_merge, fn=f)
 
 
+CONSUMERS = ("take", "replace", "take_if", "insert", "get_or_insert", "get_or_insert_with", "swap", "as_mut", "as_deref_mut")
+
+
+def params_loop_invariant(ctx, cr):
+    """every data file is evaluated against the SAME parameters: inside the functions that loop over the data files, the parameter
+    value (StructuredEvaluator.input_params / Validate::execute's extra_data) is only read — nothing takes, replaces or mutably
+    borrows it, and the per-file closures capture it by shared reference"""
+    rule = "R-C17-params-reach-every-evaluation"
+    SE = "commands::reporters::validate::structured::StructuredEvaluator::evaluate"
+    EX = "<commands::validate::Validate as commands::Executable>::execute"
+    bodies = [k for k in cr.fns if k == SE or k.startswith(SE + "::{closure") or k == EX or k.startswith(EX + "::{closure")]
+    if SE not in bodies or EX not in bodies:
+        ctx.lost(rule, rule + ":loop-invariant", "StructuredEvaluator::evaluate / Validate::execute")
+        return
+    from rules.c04 import receiver_field
+    bad = []
+    n_reads = 0
+    for k in sorted(bodies):
+        f = cr.fns[k]
+        names = M.local_names(f)
+        plocals = set(l for l, n in names.items() if n in ("input_params", "extra_data"))
+        for up in f.get("names", []):
+            # closure upvars appear as (name, place through the environment)
+            if up[0] in ("input_params", "extra_data") and not isinstance(up[1], int):
+                plocals.add(("upvar", json_key(up[1])))
+        for bi, t in M.iter_calls(f):
+            p = M.norm_path(t["fn"].get("path", ""))
+            meth = p.split("::")[-1]
+            if not t["args"]:
+                continue
+            pl = M.op_place(t["args"][0])
+            if pl is None:
+                continue
+            fld = receiver_field(cr, f, t["args"][0])
+            _, _, locs = flow.backward_slice(f, M.place_local(pl))
+            touches = fld == "input_params" or bool(set(locs) & set(x for x in plocals if isinstance(x, int)))
+            if not touches:
+                continue
+            n_reads += 1
+            is_mut_borrow = mut_borrowed(f, t["args"][0])
+            if (p.startswith(("std::option::Option::", "std::mem::")) and meth in CONSUMERS) or (is_mut_borrow and fld == "input_params"):
+                bad.append("%s applies %s to the input parameters (l.%s): later data files are evaluated against different parameters than the first" % (k.split("::")[-1] if "closure" in k else k.split("::")[-1], p, t.get("ln")))
+    ctx.ob(rule, rule + ":loop-invariant", not bad and n_reads >= 2, "; ".join(sorted(set(bad))[:3]) or "%d uses of the parameter value in the per-file loops, all reads" % n_reads, fn=cr.fns[SE])
+
+
+def json_key(x):
+    import json
+    return json.dumps(x)
+
+
+def mut_borrowed(f, operand):
+    """the operand is (a copy of) a `&mut` borrow taken in this body"""
+    from rules.c08 import def_of_local
+    pl = M.op_place(operand)
+    for _ in range(4):
+        if pl is None or not isinstance(pl, int):
+            return False
+        d = def_of_local(f, pl)
+        if not d or d[0] != "stmt":
+            return False
+        rv = d[2]["rv"]
+        if rv["r"] == "ref":
+            return bool(rv.get("m"))
+        if rv["r"] == "use":
+            pl = M.op_place(rv["o"])
+        else:
+            return False
+    return False
+
+
+KIND_PREDICATES = ("is_file", "is_dir", "is_symlink")
+
+
+def file_discovery_agreement(ctx, cr):
+    """data files, parameter files and rule files are discovered by sibling loops in Validate::execute; they must ask the same question
+    about a directory entry (today: std::path::Path::is_file, which follows symbolic links).  A sibling that resolves to another
+    predicate (FileType::is_file, Metadata via symlink_metadata …) silently drops entries the others accept."""
+    rule = "R-C17-file-discovery-agreement"
+    EX = "<commands::validate::Validate as commands::Executable>::execute"
+    f = cr.fns.get(EX)
+    if not f:
+        ctx.lost(rule, rule + ":execute", EX)
+        return
+    sites = {}
+    for k in [EX] + [x for x in cr.fns if x.startswith(EX + "::{closure")]:
+        for bi, t in M.iter_calls(cr.fns[k]):
+            p = M.norm_path(t["fn"].get("path", ""))
+            if p.split("::")[-1] in KIND_PREDICATES:
+                sites.setdefault(p, []).append(t.get("ln"))
+    total = sum(len(v) for v in sites.values())
+    if total < 4:
+        ctx.lost(rule, rule + ":floor", "only %d file-kind tests found in Validate::execute (floor 4)" % total)
+        return
+    major = max(sites, key=lambda p: len(sites[p]))
+    deviants = {p: v for p, v in sites.items() if p != major and p.split("::")[-1] == major.split("::")[-1]}
+    ctx.ob(rule, rule + ":execute", not deviants, ("%d sibling loops test entries with %s, but line(s) %s use %s: entries the other loops accept (e.g. symbolic links) are dropped there" % (
+        len(sites[major]), major, sorted(sum(deviants.values(), [])), sorted(deviants))) if deviants else "%d file-kind tests, all %s" % (total, major), fn=f,
+        sample={"predicates": {p: len(v) for p, v in sites.items()}})
+
+
 def run(ctx):
     merge_table(ctx, ctx.lib)
     errors_propagate(ctx, ctx.lib)
     params_reach(ctx, ctx.lib)
+    params_loop_invariant(ctx, ctx.lib)
+    file_discovery_agreement(ctx, ctx.lib)
     ctx.assumptions += ["IndexMap::contains_key / insert behave as documented (dependency)"]
